@@ -26,7 +26,7 @@ def plan(tier):
 
 
 def required_counters(tier):
-    return ["chunked_keys", "polars_in_polars_out", "nondefault_index", "unobserved_group_rows", "null_key_rows", "unsorted_first_appearance"]
+    return ["chunked_keys", "polars_in_polars_out", "nondefault_index", "unobserved_group_rows", "null_key_rows", "unsorted_first_appearance", "multi_column_transforms"]
 
 
 def features(case):
@@ -125,7 +125,53 @@ def check(case, ctx):
         elif not ops.same_value(v, rmap[k], tol, nullzero=op in ("var", "std")) and not (cmp.is_null(rmap[k]) and ops.is_neutral(v, op, t.dtype)):
             fails.append({"monitor": "c07.value", "sig": sig, "detail": f"{op}: row {i} key {k!r}: transform gives {v!r}, the group's result is {rmap[k]!r}"})
             break
+    if not fails and case.get("val2") is not None:
+        fails += check_columns(case, ctx, sig)
     return fails
+
+
+def check_columns(case, ctx, sig):
+    """several value columns of different dtypes: the row-aligned frame has one column per input, in input order, and every column
+    is (same dtype; same values, floating sums and means to rounding) the transform of that input alone - which the caller has just compared with its group results."""
+    import pandas as pd
+
+    op, n = case["op"], case["n"]
+    keys_obj, _, mask, idx = ops.build_inputs(case)
+    a = pd.Series(gen.val_np(case["val"]), index=idx, name="a")
+    b = pd.Series(gen.val_np(case["val2"]), index=idx, name="b")
+    shape = case.get("shape2", "frame")
+    values = {"frame": lambda: pd.DataFrame({"a": a, "b": b}), "dict": lambda: {"a": a.to_numpy(), "b": b.to_numpy()}, "list": lambda: [a, b]}[shape]()
+    st = case.get("strategy")
+    if st:
+        lib.set_strategy(**st)
+    try:
+        gb = ops.make_gb(keys_obj, sort=case.get("sort", True))
+        T = lib.call(getattr(gb, op), values, mask=mask, transform=True)
+        singles = [lib.call(getattr(gb, op), x if shape != "dict" else x.to_numpy(), mask=mask, transform=True) for x in (a, b)]
+    finally:
+        if st:
+            lib.reset_strategy()
+    ctx.count("multi_column_transforms")
+    if lib.raised(T) or any(lib.raised(x) for x in singles):
+        if lib.raised(T) and not any(lib.raised(x) for x in singles):
+            return [{"monitor": "c07.raised", "sig": sig + "|columns", "detail": f"{op}(transform=True) over two columns ({shape}) raised {T!r} although each column alone is accepted"}]
+        return []
+    if not isinstance(T, pd.DataFrame) or [str(c) for c in T.columns] != ["a", "b"]:
+        return [{"monitor": "c07.shape", "sig": sig + "|columns", "detail": f"{op}(transform=True) over columns a, b ({shape}) returned {type(T).__name__} with columns {list(getattr(T, 'columns', []))}"}]
+    for name, single in zip(["a", "b"], singles):
+        col = T[name]
+        sd = getattr(single, "dtype", None)
+        if str(col.dtype) != str(sd):
+            return [{"monitor": "c07.value", "sig": sig + "|columns", "detail": f"{op}: column {name} of the row-aligned frame has dtype {col.dtype}, alone it has {sd} (other column: {T.dtypes.to_dict()})"}]
+        x, y = cmp.col_py(col), cmp.col_py(single)
+        spec = case["val"] if name == "a" else case["val2"]
+        # floating sums / means may differ by rounding between two executions (block order); everything else is exact
+        tol = ops.float_tol(op, spec, n) if (op in ("sum", "mean") and np.dtype(spec["dtype"]).kind == "f") else 0.0
+        bad = [i for i, (p, q) in enumerate(zip(x, y)) if not ((cmp.is_null(p) and cmp.is_null(q)) or p == q or (tol and ops.same_value(p, q, tol)))]
+        if bad or len(x) != len(y):
+            i = bad[0] if bad else -1
+            return [{"monitor": "c07.value", "sig": sig + "|columns", "detail": f"{op}: column {name} row {i}: {x[i]!r} in the frame, {y[i]!r} alone"}]
+    return []
 
 
 def gen_case(rng, dtypes):
@@ -148,6 +194,18 @@ def gen_case(rng, dtypes):
             case["index"] = None
         if case["mask"] is not None and case["mask"]["kind"] == "bool_series":
             case["mask"]["kind"] = "bool"
+    dtk = np.dtype(case["val"]["dtype"]).kind
+    if case["op"] in ("sum", "min", "max", "first", "last", "mean", "count") and case["vc"] in ("np", "pd") and case["val"].get("tz") is None and rng.random() < 0.25:
+        # a second value column of another dtype (64-bit ids beyond 2**53 next to floats, floats next to integers)
+        d2 = "int64" if dtk in "fb" else gen.pick(rng, ["float64", "float32", "uint64" if dtk == "i" else "float64"])
+        v2 = gen.gen_vals(rng, n, d2, magnitude="small" if np.dtype(d2).kind != "i" else None)
+        if d2 == "int64":
+            v2["vals"] = [None if v is None else int(2**53 + 1 + 2 * i) * (-1 if i % 3 == 0 else 1) for i, v in enumerate(v2["vals"])]
+        if d2 == "uint64":
+            v2["vals"] = [None if v is None else int(2**63 + 5 + i) for i, v in enumerate(v2["vals"])]
+        if ops.accepts(case["op"], d2):
+            case["val2"] = v2
+            case["shape2"] = gen.pick(rng, ["frame", "frame", "dict", "list"])
     if rng.random() < 0.3 and len(case["keys"]) == 1 and case["keys"][0]["kind"] != "cat" and n >= 4:
         case["strategy"] = {"chunk_threshold": int(gen.pick(rng, [2, 4, 8])), "key_chunks": int(rng.integers(2, 5))}
     return case
